@@ -15,6 +15,9 @@ import (
 // (unclassified) when it is not of exactly such a shape.
 func classify(t *otree, f failure) string {
 	switch {
+	case f.kind == "oversize":
+		// Open refuses a member whose header size exceeds its segment.
+		return "sparse-oversize-refused"
 	case f.kind == "hardlink-size":
 		// Stat of a hard link reports the link's header (size 0).
 		return "hardlink-stat-size"
@@ -187,7 +190,7 @@ func refine(sys *tarfs.FS, t *otree, fails []failure) []failure {
 // every entry can be opened (no dangling or cyclic link, no special file),
 // and its Glob check only when no member was placed through a link.
 func testFSEligible(t *otree, want []oentry) bool {
-	if t.flags.throughLink || t.flags.aliasDup || t.flags.hlAlias || t.flags.lexMismatch || t.flags.danglingThrough || len(want) > 60 {
+	if t.flags.throughLink || t.flags.aliasDup || t.flags.hlAlias || t.flags.lexMismatch || t.flags.danglingThrough || len(want) > 60 || t.anyOversize(t.root) {
 		return false
 	}
 	for _, w := range want {
@@ -374,6 +377,55 @@ func (x *runner) knownFindings() {
 			f.Close()
 			if fi.Mode().Type() == fs.ModeSymlink && fi2.IsDir() {
 				r.KnownSeen("stat-symlink-lstat", `{d/, s -> d}: Stat("s") is the symbolic link, Open("s").Stat() is the directory d; the io/fs contract (fstest.TestFS: "Stat should be the same as Open+Stat, even for symlinks") wants them equal; TestSymlinks/ChaseSymlink requires the current behaviour`)
+			}
+		}
+	}
+	// sparse-oversize-refused
+	{
+		data := append(make([]byte, 8192), 'x')
+		e := rawEntry{Typeflag: '0', Name: "sp", Data: data, Mode: 0o644,
+			Sparse: &rawSparse{Holes: [][2]int64{{8192, 1}}, RealSize: 8193}}
+		arch := writeRaw([]rawEntry{e})
+		ms, derr := decodeArchive(arch)
+		if sys, err := openReal(arch); err == nil && derr == nil && len(ms) == 1 && len(ms[0].Data) == 8193 {
+			_, err := fs.ReadFile(sys, "sp")
+			fi, serr := sys.Stat("sp")
+			if err != nil && serr == nil && fi.Size() == 8193 {
+				r.KnownSeen("sparse-oversize-refused", `{PAX 1.0 sparse file "sp": a hole of 8192 bytes, then "x"}: a sequential reader yields 8193 bytes; Stat("sp").Size() = 8193 but Open("sp") fails (`+errClass(err)+`): the logical size exceeds the 2560-byte segment (checkSize, ce813f23)`)
+			}
+		}
+	}
+	// gnu-sparse-swallows-next
+	{
+		sp := rawEntry{Typeflag: '0', Name: "sp", Data: []byte("xyz"), Mode: 0o644, OldGNU: true,
+			Sparse: &rawSparse{Old: true, Holes: [][2]int64{{0, 3}}, RealSize: 3}}
+		b := rawEntry{Typeflag: '0', Name: "b", Data: []byte("abc"), Mode: 0o644}
+		arch := writeRaw([]rawEntry{sp, b})
+		ms, derr := decodeArchive(arch)
+		if sys, err := openReal(arch); err == nil && derr == nil && len(ms) == 2 {
+			_, e1 := sys.Stat("sp")
+			_, e2 := sys.Stat("b")
+			arch2 := writeRaw([]rawEntry{b, sp})
+			sys2, err2 := openReal(arch2)
+			if e1 == nil && e2 != nil && err2 == nil {
+				if _, e3 := sys2.Stat("sp"); e3 != nil {
+					r.KnownSeen("gnu-sparse-swallows-next", `{old-GNU sparse file "sp" (typeflag 'S', no extension block), regular file "b"}: a sequential reader yields sp and b; the view has sp only, Stat("b") does not exist; with the order {b, sp} the view has b only: findSegments counts 'S' among the headers that describe the next entry`)
+				}
+			}
+		}
+	}
+	// header-only-size-swallows-next
+	{
+		d := rawEntry{Typeflag: '5', Name: "d/", Mode: 0o755, SizeField: 1000}
+		f := rawEntry{Typeflag: '0', Name: "d/f", Data: []byte("abc"), Mode: 0o644}
+		g := rawEntry{Typeflag: '0', Name: "g", Data: []byte("abc"), Mode: 0o644}
+		arch := writeRaw([]rawEntry{d, f, g})
+		ms, derr := decodeArchive(arch)
+		if sys, err := openReal(arch); err == nil && derr == nil && len(ms) == 3 {
+			_, e1 := sys.Stat("d/f")
+			_, e2 := sys.Stat("g")
+			if e1 != nil && e2 == nil {
+				r.KnownSeen("header-only-size-swallows-next", `{directory "d/" whose header has size 1000, file "d/f", file "g"}: no data follows a directory whatever its size field says (POSIX pax: for type 5 the field is an allocation hint), a sequential reader yields d/, d/f and g; findSegments skips two blocks of "content": the view has d and g, Stat("d/f") does not exist`)
 			}
 		}
 	}
